@@ -94,7 +94,7 @@ Print Assumptions pack_if_both_sorts.
 (* the modelled sort is a sorting function *)
 Theorem sort_is_sorted_permutation : forall l,
   Permutation l (sort_u16 l) /\ Sorted.Sorted (fun a b => a <= b) (sort_u16 l).
-Proof. intros l. split; [apply sort_perm | apply sort_sorted]. Qed.
+Proof. exact sort_is_sorted_permutation_lemma. Qed.
 Print Assumptions sort_is_sorted_permutation.
 
 (* reported <-> the declared order takes more slots than the ascending sort *)
@@ -159,7 +159,7 @@ Print Assumptions struct_sizes_in_range.
    type, parameter, ... there are only expression and statement nodes *)
 Theorem only_expressions_and_statements_below :
   (forall x, Forall low (pre_Expression x)) /\ (forall x, Forall low (pre_Statement x)).
-Proof. split; [exact pre_low_Expression | exact pre_low_Statement]. Qed.
+Proof. exact only_low_below_lemma. Qed.
 Print Assumptions only_expressions_and_statements_below.
 
 (* ---- concrete instances *)
